@@ -85,6 +85,11 @@ pub proof fn axiom_buint_shr_u32<const N: usize>(a: BUint<N>, s: u32)
         (s as int) < 64 * N ==> uv(a.shr_spec(s)) == uv(a) / (vstd::arithmetic::power2::pow2(s as nat)),
 {}
 #[verifier::external_body]
+pub proof fn axiom_buint_eq<const N: usize>(a: BUint<N>, b: BUint<N>)
+    ensures <BUint<N> as vstd::std_specs::cmp::PartialEqSpec<BUint<N>>>::obeys_eq_spec(),
+        a.eq_spec(&b) == (uv(a) == uv(b)),
+{}
+#[verifier::external_body]
 pub proof fn axiom_buint_cmp<const N: usize>(a: BUint<N>, b: BUint<N>)
     ensures <BUint<N> as vstd::std_specs::cmp::PartialOrdSpec<BUint<N>>>::obeys_partial_cmp_spec(),
         a.partial_cmp_spec(&b) == Some(if uv(a) < uv(b) { core::cmp::Ordering::Less } else if uv(a) == uv(b) { core::cmp::Ordering::Equal } else { core::cmp::Ordering::Greater }),
